@@ -62,7 +62,7 @@ def build_map(layout, mm=None, first=0, last=None):
     """Build (or continue building) the live memory map; returns (map, skipped adds)."""
     aw, dw, al = layout["aw"], layout["dw"], layout["al"]
     if mm is None:
-        mm = MemoryMap(addr_width=aw, data_width=dw, alignment=al)
+        mm = MemoryMap(addr_width=aw, data_width=dw, **({} if (al == 0 and (aw + dw) % 2) else {"alignment": al}))
     skipped = 0
     for i, r in list(enumerate(layout["regs"]))[first:last]:
         p = Probe(r["width"], r["access"])
@@ -127,7 +127,8 @@ def run_mux_case(case, judged):
             neighbour = csr.Multiplexer(n_mm, shadow_overlaps=layout["overlaps"])
         except ValueError:
             neighbour = None
-    dut = early_dut if early_dut is not None else csr.Multiplexer(mm, shadow_overlaps=layout["overlaps"])
+    from vmon.simkit import omit
+    dut = early_dut if early_dut is not None else csr.Multiplexer(mm, **omit(rng, "csr.Multiplexer", shadow_overlaps=layout["overlaps"]))
     if early_dut is not None:
         mon.count("multiplexers_created_before_their_last_registers")
     bus = dut.bus
